@@ -31,6 +31,10 @@ def canon(e, names=None):
             return {'p': 'bind', 'n': nm(x['name']), 'by_ref': x.get('by_ref'), 'sub': go(x.get('sub'))}
         if k == 'closure':
             return {'e': 'closure', 'params': go(x['params']), 'body': go(x['body'])}
+        if k == 'struct' and isinstance(x.get('fields'), list) and not _has_assignment(x['fields']):
+            # the order in which a struct literal lists its fields is not behaviour (initialisers without assignments): sort by field name
+            x = dict(x)
+            x['fields'] = sorted(x['fields'], key=lambda fl: str(fl.get('name')) if isinstance(fl, dict) else '')
         out = {}
         if k == 'bin' and x.get('op') in ('Ge', 'Le', 'Gt', 'Lt'):
             fl = 'f' if any(t in (x.get('aty') or '') for t in ('f64', 'f32')) else 'i'
@@ -45,6 +49,16 @@ def canon(e, names=None):
             out[kk] = go(v)
         return out
     return go(e)
+
+
+def _has_assignment(x):
+    if isinstance(x, list):
+        return any(_has_assignment(y) for y in x)
+    if isinstance(x, dict):
+        if x.get('e') in ('assign', 'assign_op'):
+            return True
+        return any(_has_assignment(v) for v in x.values())
+    return False
 
 
 def swap_tokens(tree, pairs):
